@@ -5,7 +5,7 @@ from .util import call, LETTERS
 
 ID = 'C15'
 LEAN_MODULE = 'KernProofs.C15'
-THEOREMS = []
+THEOREMS = ['KM.C15.C15_links_kept', 'KM.C15.C15_non_notes_unchanged', 'KM.C15.mapM_pd', 'KM.C15.C15_note', 'KM.C15.C15_pitch_is_C09', 'KM.C15.C15_bad_arguments', 'KM.C15.C15_source_is_modified', 'KM.C15.C15_accidental_not_merged', 'KM.C15.C15_chords_not_transposed']
 FINGERPRINTS = ['document.Document', 'transposer.transpose', 'pitch_models.AgnosticPitch', 'pitch_models.HumdrumPitchExporter.export_pitch',
                 'pitch_models.HumdrumPitchImporter._parse_pitch', 'tokens.NoteRestToken.export']
 RULE = ('core stream: generated documents whose notes are single notes without explicit accidental (all spine types, splits, comments; quick 12 / '
